@@ -13,6 +13,42 @@ Definition save_steps (chain : list path) (p t : path) (chunks : list str) : lis
     ++ [CreateExcl t mode_file; Chmod t mode_file]
     ++ map (Write t) chunks ++ [Close t; Rename t p].
 
+(* ---------- I/O errors inside a save (config.go saveFile + ioutil.Ingest error
+   paths).  The failing system call has no effect; what runs afterwards is the
+   clean-up the code performs for that failure:
+     MkdirAll fails (at level j)   -> nothing (levels already made stay)
+     CreateTemp fails              -> nothing
+     Chmod / Write fails           -> deferred Close, then os.Remove(temp)   [Ingest]
+     Close fails                   -> os.Remove(temp)                          [Ingest]
+     Rename fails                  -> deferred os.Remove(ingest)               [saveFile]
+   [FWrite j]: j write calls succeeded before the failing one. ---------- *)
+Inductive fail_point :=
+| FMkdir (j : nat) | FCreate | FChmod | FWrite (j : nat) | FClose | FRename.
+
+Definition failed_save_steps (chain : list path) (p t : path) (chunks : list str) (fp : fail_point) : list mstep :=
+  let mkdirs := map (fun d => MkdirAll d mode_dir) chain in
+  let writes := map (Write t) chunks in
+  match fp with
+  | FMkdir j => firstn j mkdirs
+  | FCreate => mkdirs
+  | FChmod => mkdirs ++ [CreateExcl t mode_file] ++ [Close t; Unlink t]
+  | FWrite j => mkdirs ++ [CreateExcl t mode_file; Chmod t mode_file] ++ firstn j writes ++ [Close t; Unlink t]
+  | FClose => mkdirs ++ [CreateExcl t mode_file; Chmod t mode_file] ++ writes ++ [Unlink t]
+  | FRename => mkdirs ++ [CreateExcl t mode_file; Chmod t mode_file] ++ writes ++ [Close t; Unlink t]
+  end.
+
+(* history: before the fix "ioutil.Ingest removes the temp file when chmod or copy
+   fails" the deferred clean-up removed the path "" (the named result had been
+   reset by `return "", err`), i.e. nothing *)
+Definition failed_save_steps_prefix (chain : list path) (p t : path) (chunks : list str) (fp : fail_point) : list mstep :=
+  let mkdirs := map (fun d => MkdirAll d mode_dir) chain in
+  let writes := map (Write t) chunks in
+  match fp with
+  | FChmod => mkdirs ++ [CreateExcl t mode_file] ++ [Close t]
+  | FWrite j => mkdirs ++ [CreateExcl t mode_file; Chmod t mode_file] ++ firstn j writes ++ [Close t]
+  | _ => failed_save_steps chain p t chunks fp
+  end.
+
 (* a config path that is a SYMBOLIC LINK to [q]: the name [p] holds no file of
    its own and os.Open(p) reads [q].  saveFile never resolves the link:
    Rename(t, p) replaces the NAME p -- the link disappears, [q] is not touched *)
